@@ -48,9 +48,36 @@ def rand_float(rng):
 
 
 # --------------------------------------------------------------- generator
+def store_order(rng, ids):
+    """storage order of an id list: shuffled, or almost sorted (ends in place + interior shuffled,
+    two neighbours swapped, one id moved, reversed, sorted)"""
+    ids = list(ids)
+    k = rng.choice(['shuffle', 'shuffle', 'sorted', 'reversed', 'swap', 'move', 'ends'])
+    if k == 'shuffle' or len(ids) < 3:
+        rng.shuffle(ids)
+        return ids
+    ids.sort()
+    if k == 'reversed':
+        ids.reverse()
+    elif k == 'swap':
+        i = rng.randrange(len(ids) - 1)
+        ids[i], ids[i + 1] = ids[i + 1], ids[i]
+    elif k == 'move':
+        x = ids.pop(rng.randrange(len(ids)))
+        ids.insert(rng.randrange(len(ids) + 1), x)
+    elif k == 'ends':
+        mid = ids[1:-1]
+        rng.shuffle(mid)
+        ids = [ids[0]] + mid + [ids[-1]]
+    return ids
+
+
 def gen_ids(rng, n, mode):
     if mode == 'seq':
         ids = list(range(1, n + 1))
+    elif mode == 'offset':
+        a = rng.choice([2, 100, 2 ** 31 - 3, 2 ** 53 - n])
+        ids = list(range(a, a + n))
     elif mode == 'sparse':
         ids = rng.sample(range(1, 10000), n)
     elif mode == 'large':
@@ -66,6 +93,10 @@ def gen_name(rng, used):
         s = ''.join(rng.choice(NAME_CH) for _ in range(ln))
         if rng.random() < 0.2 and ln >= 3:
             s = s[0] + ' ' + s[2:]
+        if used and rng.random() < 0.35:
+            # names that are prefixes / extensions / case variants of one another
+            base = rng.choice(sorted(used))
+            s = rng.choice([base + rng.choice(NAME_CH), base.swapcase(), base[:-1] or base + '_', base + base])
         if s not in used and s.upper() != 'NODE' and s not in ALIASES and s.lower() not in ('nan', 'na', 'null', 'n/a', 'none'):
             used.add(s)
             return s
@@ -87,26 +118,29 @@ def gen_case(rng, cid, stream):
     """stream: 'aligned' | 'permuted' | 'malformed'"""
     c = {'id': cid, 'stream': stream}
     nn = rng.choice([1, 2, 3, 4, 5, 6, 8, 12])
-    id_mode = rng.choice(['seq', 'sparse', 'sparse', 'large', 'signed'])
-    nids = gen_ids(rng, nn, id_mode)
-    rng.shuffle(nids)
+    id_mode = rng.choice(['seq', 'offset', 'sparse', 'sparse', 'large', 'signed'])
+    nids = store_order(rng, gen_ids(rng, nn, id_mode))
     nw = rng.choice([3, 3, 3, 2, 1])
     c['nodes'] = {'ids': nids, 'width': nw,
                   'rows': [[hx(rand_float(rng)) for _ in range(nw)] for _ in range(nn)]}
     # element blocks
     nt = rng.choice([1, 1, 2, 2, 3, 4])
     types = rng.sample([t for t in ARITY], nt)
+    if rng.random() < 0.15:
+        # first and second order of the same family in one mesh
+        types = ['tet', 'tet2'] + [t for t in types if t not in ('tet', 'tet2')][:nt - 2 if nt > 2 else 0]
+        nt = len(types)
     if stream == 'malformed' and rng.random() < 0.5:
         types[rng.randrange(nt)] = rng.choice(list(SECOND_ORDER_UNSUPPORTED))
     counts = [rng.choice([1, 1, 2, 3, 4]) for _ in types]
-    eid_mode = rng.choice(['seq', 'sparse', 'sparse', 'large', 'signed'])
+    eid_mode = rng.choice(['seq', 'offset', 'sparse', 'sparse', 'large', 'signed'])
     eids = gen_ids(rng, sum(counts), eid_mode)
     rng.shuffle(eids)                     # interleaves the ids across the types
     c['elems'] = []
     k = 0
     for t, cnt in zip(types, counts):
         ar = ARITY.get(t) or SECOND_ORDER_UNSUPPORTED[t]
-        c['elems'].append({'type': t, 'ids': eids[k:k + cnt],
+        c['elems'].append({'type': t, 'ids': store_order(rng, eids[k:k + cnt]),
                            'rows': [[rng.choice(nids) for _ in range(ar)] for _ in range(cnt)]})
         k += cnt
     used = set()
@@ -115,13 +149,13 @@ def gen_case(rng, cid, stream):
     c['nodal'] = []
     for _ in range(rng.choice([0, 0, 1, 1, 2, 3])):
         kind = rng.choice(['2d'] * 6 + ['1d', '3d'])
-        w = rng.choice([1, 1, 2, 3, 6, 9])
+        w = rng.choice([1, 1, 2, 3, 6, 9, 10, 12, 20])
         if kind == '3d' and w == nn:
             w += 1     # (k, n_node, ...) arrays are time series to the writer; out of scope
         ids = list(nids)
         if stream == 'permuted' and nn > 1:
             while ids == nids:
-                rng.shuffle(ids)
+                ids = store_order(rng, ids)
         if stream == 'malformed' and rng.random() < 0.4 and nn > 1:
             ids = ids[:-1]                # a variable that does not cover the mesh
         c['nodal'].append({'name': gen_name(rng, used), 'kind': kind, 'width': w, 'ids': ids,
@@ -131,14 +165,14 @@ def gen_case(rng, cid, stream):
     all_e = [(b['type'], i) for b in c['elems'] for i in b['ids']]
     for _ in range(rng.choice([0, 0, 1, 1, 2, 3])):
         kind = rng.choice(['2d'] * 6 + ['1d', '3d'])
-        w = rng.choice([1, 1, 2, 3, 6])
+        w = rng.choice([1, 1, 2, 3, 6, 10, 12])
         layout = rng.choice(['typed', 'typed', 'unknown'])
         if layout == 'typed':
             blocks = []
             for b in c['elems']:
                 ids = list(b['ids'])
                 if stream == 'permuted':
-                    rng.shuffle(ids)
+                    ids = store_order(rng, ids)
                 blocks.append({'type': b['type'], 'ids': ids})
         else:
             ids = [i for _, i in all_e]
@@ -156,6 +190,36 @@ def gen_case(rng, cid, stream):
         for b in blocks:
             b['rows'] = [[hx(rand_float(rng)) for _ in range(w)] for _ in b['ids']]
         c['elemental'].append({'name': gen_name(rng, used), 'kind': kind, 'width': w, 'blocks': blocks})
+    # options: how the file is written / read; the same read twice
+    c['reader'] = rng.choice(['files', 'files', 'directory'])
+    c['overwrite'] = rng.choice([True, False])      # fresh paths only; a shared path is always overwritten
+    c['read_twice'] = rng.random() < 0.25
+    return c
+
+
+INT_DTYPES = ['int64', 'int32', 'float32']
+
+
+def gen_dtype_case(rng, cid):
+    """dtype stream (oracle on the implementation only): coordinates and fields that are not float64;
+    all values are small integers, so every dtype holds them exactly and the read-back float64 must be
+    numerically identical"""
+    c = gen_case(rng, cid, 'aligned')
+    c['stream'] = 'dtypes'
+    c['oracle_only'] = True
+    c['drop_NODE'] = False
+
+    def ints(rows, lo=-9, hi=9):
+        return [[hx(float(rng.randint(lo, hi))) for _ in r] for r in rows]
+    c['nodes']['rows'] = ints(c['nodes']['rows'])
+    c['nodes']['dtype'] = rng.choice(['float64', 'float32', 'int64', 'int32'])
+    for v in c['nodal']:
+        v['dtype'] = rng.choice(INT_DTYPES + ['bool'])
+        v['rows'] = ints(v['rows'], 0, 1) if v['dtype'] == 'bool' else ints(v['rows'])
+    for v in c['elemental']:
+        v['dtype'] = rng.choice(INT_DTYPES)
+        for b in v['blocks']:
+            b['rows'] = ints(b['rows'])
     return c
 
 
@@ -326,7 +390,7 @@ def coq_correspondence(ctx, cases, res, tag):
         wl, rl, pl = [], [], []
         for c in part:
             r = res[c['id']]
-            if 'build_error' in r:
+            if 'build_error' in r or c.get('oracle_only'):
                 continue
             m = coq_mesh(c)
             txt.append(f"Definition m{c['id']} : mesh str := {m}.")
@@ -378,6 +442,9 @@ def describe(c):
 
 def case_for_replay(c):
     d = {k: c[k] for k in ('nodes', 'elems', 'drop_NODE', 'nodal', 'elemental', 'stream')}
+    for k in ('reader', 'overwrite', 'read_twice', 'oracle_only'):
+        if k in c:
+            d[k] = c[k]
     if c.get('path_key'):
         d['path_key'] = c['path_key']
         if c.get('_prev') is not None:
@@ -401,6 +468,9 @@ def check_cases(ctx, cases, etypes, cfg, tag, tie_ok):
         r = res[c['id']]
         ctx.count('stream:' + c['stream'])
         ctx.count('history:' + ('same-path-rewrite' if c.get('_prev') else 'fresh-path'))
+        ctx.count('reader:' + c.get('reader', 'files'))
+        if c.get('stream') == 'dtypes':
+            ctx.count('node_dtype:' + c['nodes'].get('dtype', 'float64'))
         ctx.count('n_types:%d' % len(c['elems']))
         ctx.count('n_nodal2d:%d' % (len([v for v in c['nodal'] if v['kind'] == '2d']) + (not c['drop_NODE'])))
         ctx.count('n_elemental2d:%d' % len([v for v in c['elemental'] if v['kind'] == '2d']))
@@ -415,6 +485,9 @@ def check_cases(ctx, cases, etypes, cfg, tag, tie_ok):
             continue
         if outcome != 'ok':
             oracle_bad[c['id']] = [('raised', outcome, r.get(outcome, ''))]
+            continue
+        if r.get('second_read_differs'):
+            oracle_bad[c['id']] = [('second read of the same file differs from the first',)]
             continue
         # float(repr(x)) == x: the trusted section hypothesis, exercised here
         d = diff_by_id(exp, observed_by_id(r['read']))
@@ -596,12 +669,15 @@ def main(ctx):
     # same-process history stream: every third well-formed case is written to and read from one
     # shared path (write A, read, write B with overwrite=True, read, ...); each read is
     # compared with what was written last
+    for _ in range({'quick': 12, 'thorough': 300}[ctx.tier]):
+        cases.append(gen_dtype_case(ctx.rng, cid))
+        cid += 1
     gen = cases[len(corpus):]
     ctx.rng.shuffle(gen)
     cases = cases[:len(corpus)] + gen
     for i, c in enumerate(cases):
         c['id'] = i
-        if i % 3 == 0 and c['stream'] != 'malformed':
+        if i % 3 == 0:      # malformed cases too: a failed write must not leak into the next read
             c['path_key'] = 'h'
     if tie_ok:
         ok, log, _ = lib.coq_make(['C04/Corr.vo', 'C04/gen/UcdCfg.vo'])
